@@ -20,6 +20,7 @@ inductive Ev where
   | expire                  -- zookeeper coordinator: ZookeeperConnected = false; Broadcast()
   | clearFlag               -- doEvaluations = false
   | reconnect               -- zookeeper coordinator: ZookeeperConnected = true
+  | otherSession            -- any other session event (Disconnected, Connecting, HasSession, …): ignored by mainLoop
   | seeConnected            -- the polling loop finds ZookeeperConnected
   | unlockOk | unlockFail
   | sweep                   -- a request loop reads the flag (true) and sends the evaluations that are due
@@ -53,6 +54,7 @@ def step (s : St) : Ev → Option St
     some { s with connected := false, owns := false, pc := if s.pc = .waiting then .woken else s.pc }
   | .clearFlag => if s.pc = .woken then some { s with pc := .waitConn, flag := false, stage := 0 } else none
   | .reconnect => some { s with connected := true }
+  | .otherSession => some s
   | .seeConnected =>
     if s.pc = .waitConn ∧ s.connected = true then some { s with pc := .unlocking, stage := if s.stage = 0 then 1 else s.stage } else none
   | .unlockOk => if s.pc = .unlocking then some { s with pc := .sleeping, owns := false, stage := if s.stage = 1 then 2 else s.stage } else none
